@@ -9,9 +9,14 @@ MUTANTS = [
     ('zint unkeyed again', [('mininec.Skin_Effect_Load.impedance', "if w.zint is None or w.zint [0] != f:", "if w.zint is None:")], ['CACHE']),
     ('add_conn one direction only', [('mininec.Geobj._add_conn', "        other.conn [n2].add (self,  self, n1, s, s)\n", "")], ['add-conn']),
     ('add_conn sign inverted', [('mininec.Geobj._add_conn', "s = -1 if (n2 == n1) else 1", "s = 1 if (n2 == n1) else -1")], ['add-conn']),
+    ('end-2 neighbour segment chosen by the end-1 sign', [('mininec.Geobj.compute_connections', "            if sgn [1] < 0:\n                oseg = other.segments [-1]", "            if sgn [0] < 0:\n                oseg = other.segments [-1]")], ['neighbour-segment']),
+    ('end-1 neighbour segment always the last', [('mininec.Geobj.compute_connections', "            if sgn [0] < 0:\n                oseg = other.segments [0]", "            if sgn [0] < 0:\n                oseg = other.segments [-1]")], ['neighbour-segment']),
+    ('outer point of end 1 on the inner side', [('mininec.Geobj.compute_connections', "prev = self.p1 - oinc", "prev = self.p1 + oinc")], ['neighbour-segment']),
+    ('outer point of end 2 ignores the direction', [('mininec.Geobj.compute_connections', "oinc = oseg.dirvec * oseg.seg_len * sgn [1]", "oinc = oseg.dirvec * oseg.seg_len")], ['neighbour-segment']),
     ('junction pulse sign ignores direction', [('mininec.Geobj.compute_connections', "sgn   = [1, np.sign (self.idx_2)]", "sgn   = [1, 1]")], ['add-conn', 'pulse-signs']),
 ]
 REFACTORS = [
+    ('neighbour segment by conditional expression', [('mininec.Geobj.compute_connections', "            if sgn [1] < 0:\n                oseg = other.segments [-1]\n            else:\n                oseg = other.segments [0]", "            oseg = other.segments [-1] if sgn [1] < 0 else other.segments [0]")]),
     ('junction accumulate as c = c + term', [(M + 'currents_as_mininec', "                        c += s * self.current [p]", "                        c = c + self.current [p] * s")]),
     ('zins via local radius', [('mininec.Insulation_Load.impedance', "                    * np.log (ld.radius / geobj.r_orig)", "                    * np.log (ld.radius / geobj._r)")]),
 ]
